@@ -40,8 +40,9 @@ impl Token<'_> {
 }
 
 /// The parser (and the compiler after it) is recursive: input that is nested deeper than this
-/// is rejected instead of exhausting the native stack.
-const MAX_NESTING_DEPTH: usize = 500;
+/// is rejected instead of exhausting the native stack. One level costs up to 16 KiB of stack in an
+/// unoptimised build, and a spawned thread (every `cargo test` thread, for one) has 2 MiB.
+const MAX_NESTING_DEPTH: usize = 100;
 
 struct Parser<'a> {
     tokenizer: Tokenizer<'a>,
